@@ -18,6 +18,7 @@ tasks while holding `_io_submit_lock`) is not proved; the scheduled explorer sea
 deadlocks and livelocks directly (systematically small, randomized beyond), which is also where
 the re-entrant callback requirement (defect D3) is checked.
 -/
+import S3V.Model.Pipeline
 import S3V.Model.Exec
 import S3V.Props.C10
 import S3V.Props.C12
@@ -323,6 +324,60 @@ theorem cci_handoff (pre post : List CciOp) :
   split <;> simp_all
 
 example : (([CciOp.dec, .dec].foldl cciApply (([CciOp.inc, .inc].foldl cciApply S3V.Sema.Cci.init).finalize.1)).fired) = 1 := by decide
+
+/-! ### the three stages in a row
+
+Submission tasks submit request tasks, request tasks submit io tasks, io tasks submit nothing; a
+submitter blocks while the next stage has no permit.  (Dependencies inside one stage are
+`stage_no_stuck`'s subject; the composition of both is checked by the explorer's deadlock
+detection, not proved.) -/
+namespace Pipe
+open S3V.Pipeline (P Stage)
+
+/-- **The three-stage pipeline is never stuck**: whenever some task exists, a task can be picked,
+can finish, or a blocked submitter can proceed — in every state, reachable or not, as long as every
+stage has a worker and a permit. -/
+theorem pipeline_no_deadlock (p : P) (hn : p.n = 3)
+    (hw : ∀ k, k < 3 → 0 < (p.s k).workers ∧ 0 < (p.s k).cap)
+    (hb2 : (p.s 2).blocked = 0)
+    (hsome : 0 < (p.s 0).inflight + (p.s 1).inflight + (p.s 2).inflight) :
+    ∃ l, (S3V.Pipeline.step p l).isSome = true ∧ (∀ k, l ≠ S3V.Pipeline.Label.trySubmit k) := by
+  -- the last stage that holds a task can always move
+  by_cases h2 : 0 < (p.s 2).inflight
+  · unfold Stage.inflight at h2
+    by_cases hr : 0 < (p.s 2).running
+    · exact ⟨S3V.Pipeline.Label.finish 2, by simp [S3V.Pipeline.step, hn, hr], by intro k; simp⟩
+    · have hq : 0 < (p.s 2).queued := by omega
+      have := (hw 2 (by omega)).1
+      exact ⟨S3V.Pipeline.Label.pick 2, by simp [S3V.Pipeline.step, hn, hq, hb2]; omega, by intro k; simp⟩
+  · have h2z : (p.s 2).inflight = 0 := by omega
+    by_cases h1 : 0 < (p.s 1).inflight
+    · unfold Stage.inflight at h1
+      by_cases hr : 0 < (p.s 1).running
+      · exact ⟨S3V.Pipeline.Label.finish 1, by simp [S3V.Pipeline.step, hn, hr], by intro k; simp⟩
+      · by_cases hbk : 0 < (p.s 1).blocked
+        · have := (hw 2 (by omega)).2
+          exact ⟨S3V.Pipeline.Label.unblock 1, by simp [S3V.Pipeline.step, hn, hbk, h2z]; omega, by intro k; simp⟩
+        · have hq : 0 < (p.s 1).queued := by omega
+          have := (hw 1 (by omega)).1
+          exact ⟨S3V.Pipeline.Label.pick 1, by simp [S3V.Pipeline.step, hn, hq]; omega, by intro k; simp⟩
+    · have h1z : (p.s 1).inflight = 0 := by omega
+      have h0 : 0 < (p.s 0).inflight := by omega
+      unfold Stage.inflight at h0
+      by_cases hr : 0 < (p.s 0).running
+      · exact ⟨S3V.Pipeline.Label.finish 0, by simp [S3V.Pipeline.step, hn, hr], by intro k; simp⟩
+      · by_cases hbk : 0 < (p.s 0).blocked
+        · have := (hw 1 (by omega)).2
+          exact ⟨S3V.Pipeline.Label.unblock 0, by simp [S3V.Pipeline.step, hn, hbk, h1z]; omega, by intro k; simp⟩
+        · have hq : 0 < (p.s 0).queued := by omega
+          have := (hw 0 (by omega)).1
+          exact ⟨S3V.Pipeline.Label.pick 0, by simp [S3V.Pipeline.step, hn, hq]; omega, by intro k; simp⟩
+
+
+example : (S3V.Pipeline.step { s := fun k => if k = 0 then { cap := 1, workers := 1, blocked := 1 } else { cap := 1, workers := 1 } }
+    (S3V.Pipeline.Label.unblock 0)).isSome = true := by decide
+
+end Pipe
 
 /-! ### non-vacuity -/
 example : Ord (Exec.init 2 1) 0 ∧ 0 < (Exec.init 2 1).workers := ⟨ord_init 2 1, by decide⟩
